@@ -37,7 +37,7 @@ def run(tier, seed):
     # 2. oracle: shadow occupancy on every acquisition path, counting and binary semaphore flavours
     import scen_common
     specs = [("mu_mix", {}, 3000, 60000), ("cv_mix", {"VRT_MODE": 0}, 1500, 30000), ("cv_mix", {"VRT_MODE": 1}, 1000, 30000),
-             ("cv_mix", {"VRT_MODE": 2}, 1500, 30000), ("muwait_mix", {}, 1500, 30000), ("waitn_mix", {}, 1000, 20000),
+             ("cv_mix", {"VRT_MODE": 2}, 1500, 30000), ("muwait_mix", {}, 1500, 30000), ("waitn_mix", {}, 2500, 40000),
              ("mu_mix", {}, 1000, 20000, "binary"), ("cv_mix", {}, 1000, 20000, "binary"), ("muwait_mix", {}, 700, 15000, "binary")]
     oc = scen_common.run_scenarios(res, specs, tier, seed, {"C01"} | scen_common.LIVENESS | scen_common.CRASHES)
     nrun = oc["evaluations"]
